@@ -13,7 +13,7 @@ RULE = ('exhaustive count sweep N, bs in 1..40 x num_epochs 1..16 x drop_remaind
         'skip_shuffle, seeds from VERIF_SEED, plus random larger (N, bs); every 9th grid case draws from a dataset obtained by slicing a larger parent; four call forms (hparams object, keywords, view class directly, hparams '
         'object overridden by keywords incl. overrides to None); every view iterated twice + a fresh view + two interleaved '
         'live iterators (same view; two different clients\' views) + a pass in pieces + other views of the same dataset in between + kept results; '
-        'ints as python / NumPy scalar / 0-d array; counts up to 2^40 observed on a prefix; kwargs equal to the documented defaults omitted in half of the cases; global numpy RNG perturbed between passes; NaN / inf / -0.0 feature column; seeds incl. 0 and 2^32-1; num_epochs incl. 0; 7 feature dtypes; infinite streams observed on a 7-batch prefix; '
+        'ints as python / NumPy scalar / 0-d array; counts up to 2^40 observed on a prefix; kwargs equal to the documented defaults omitted in half of the cases; global numpy RNG perturbed between passes; NaN / inf / -0.0 feature column; 8 memory layouts of every column; batches spanning up to 5 passes (N up to 16) with adjacent-window comparison; seeded streams compared with two child interpreters (other PYTHONHASHSEED); seeds incl. 0 and 2^32-1; num_epochs incl. 0; 7 feature dtypes; infinite streams observed on a 7-batch prefix; '
         'non-trivial = N >= 1 and at least one batch drawn; distinct = distinct case JSON')
 TRUSTED = ['numpy RandomState.shuffle returns a permutation of its argument and is a function of (seed, call history) '
            '(asserted on every recovered window)']
@@ -44,21 +44,33 @@ def generate(tier, rng):
         for s in steps:
           i += 1
           yield {'n': n, 'bs': bs, 'epochs': e, 'steps': s, 'drop': bool(i % 2), 'skip': i % 5 == 0,
-                 'seed': _seed(rng, i), 'kw': i % 3 == 0, 'form': [1, 0, 2, 3][i % 4], 'deliv': i // 4,
+                 'seed': _seed(rng, i), 'kw': i % 3 == 0, 'form': [1, 0, 2, 3][i % 4], 'deliv': i // 4, 'layout': (i // 7) % 8,
                  **({'pslice': _PSLICES[(i // 9) % len(_PSLICES)](n)} if i % 9 == 0 else {})}
           if tier != 'quick':
             yield {'n': n, 'bs': bs, 'epochs': e, 'steps': s, 'drop': not bool(i % 2), 'skip': i % 7 == 0,
                    'seed': _seed(rng, i + 3), 'kw': i % 3 == 1, 'form': [2, 3, 1, 0][i % 4], 'deliv': i // 4 + 1}
+  # one batch spanning several passes over the data (batch_size = 2N+1 .. 5N+2), with a second iteration;
+  # N >= 12 so that two identical consecutive windows cannot be a coincidence (1/12! < 3e-9)
+  j = 0
+  for n in (1, 2, 3, 5, 12, 13, 16):
+    for bs in (2 * n + 1, 3 * n + 1, 5 * n + 2):
+      for st in (1, 3):
+        j += 1
+        yield {'n': n, 'bs': bs, 'epochs': None, 'steps': st, 'drop': bool(j % 2), 'skip': False, 'seed': _seed(rng, j),
+               'kw': False, 'form': j % 4, 'deliv': j, 'layout': j % 8}
   for j in range(24):     # magnitude: astronomically large counts, batch sizes far above N
     big = rng.choice([10 ** 6, 10 ** 12, (1 << 31) - 1, 1 << 40])
     yield {'n': 1 + j % 5, 'bs': 1 + j % 3, 'epochs': [big, None, big, 2][j % 4], 'steps': [None, big, big + 1, big][j % 4],
            'drop': bool(j % 2), 'skip': j % 6 == 0, 'seed': _seed(rng, j), 'kw': False, 'form': j % 4, 'deliv': j}
-  for _ in range(nrand):
+  for _ in range(nrand + 1):
+    if _ == nrand:
+      yield {'xproc': 1}      # two child interpreters (started in warmup) with other PYTHONHASHSEED values
+      return
     n = rng.choice([rng.randrange(1, 40), rng.randrange(10, 200)])
     bs = rng.choice([1, 2, 3, rng.randrange(1, 2 * n + 2), n, n + 1, 2 * n])
     yield {'n': n, 'bs': bs, 'epochs': rng.choice([None, 1, 2, 3, 5]), 'steps': rng.choice([None, 0, 1, 3, 8, 20]),
            'drop': rng.random() < 0.5, 'skip': rng.random() < 0.2, 'seed': _seed(rng, rng.randrange(16)), 'kw': False,
-           'form': rng.randrange(4), 'deliv': rng.randrange(9)}
+           'form': rng.randrange(4), 'deliv': rng.randrange(9), 'layout': rng.randrange(8)}
 
 
 def _seed(rng, i):
@@ -74,7 +86,12 @@ def _scalar(v, form):
 _BIG = (1 << 24) + 1
 
 
-def _columns(n):
+def _columns(n, layout=0):
+  from harness import c03
+  return {k: c03._layout(v, layout) for k, v in _columns0(n).items()}
+
+
+def _columns0(n):
   return {'x': np.arange(n, dtype=np.int32), 'v': np.arange(n, dtype=np.float32) * 0.5,
           'img': (np.arange(2 * n).reshape(n, 2) % 251).astype(np.uint8),
           's3': np.array([b'%d' % (i % 1000) for i in range(n)], dtype='S3'),
@@ -92,22 +109,29 @@ def _nanf(i):
   return v
 
 
-def _feat_ok(b):
+def _lay(case):
+  return case.get('layout', 0)
+
+
+def _feat_ok(b, case=None):
   """Every column of a batch follows its row id x (gather v[indices] keeps dtype and trailing shape)."""
   x = np.asarray(b['x'])
-  if x.dtype != np.int32 or set(b) != {'x', 'v', 'img', 's3', 'obj', 'flag', 'big', 'nanf', 'y'}:
+  if x.dtype.kind != 'i' or x.dtype.itemsize != 4 or set(b) != {'x', 'v', 'img', 's3', 'obj', 'flag', 'big', 'nanf', 'y'}:
     return False
   xi, k = x.astype(np.int64), len(x)
   exp = {'y': x + 1, 'v': x.astype(np.float32) * 0.5,
          'img': ((2 * xi[:, None] + np.arange(2)[None, :]) % 251).astype(np.uint8).reshape(k, 2),
          's3': np.array([b'%d' % (int(i) % 1000) for i in xi], dtype='S3').reshape(k),
          'flag': xi % 2 == 0, 'big': (xi + _BIG).astype(np.int32)}
+  from harness import c03
+  swap = case is not None and _lay(case) == 6
   for name, w in exp.items():
     a = np.asarray(b[name])
-    if a.dtype != w.dtype or a.shape != w.shape or not np.array_equal(a, w):
+    want_dt = w.dtype.newbyteorder() if swap and name != 'y' and c03._swappable(w.dtype) else w.dtype
+    if a.dtype != want_dt or a.shape != w.shape or not np.array_equal(a, w):
       return False
   nf = np.asarray(b['nanf'])
-  if nf.dtype != np.float32 or nf.shape != (k,) or nf.tobytes() != _nanf(xi).tobytes():   # bitwise: NaN / inf / -0.0 kept
+  if nf.dtype.kind != 'f' or nf.dtype.itemsize != 4 or nf.shape != (k,) or nf.astype(np.float32).tobytes() != _nanf(xi).tobytes():   # bitwise: NaN / inf / -0.0 kept
     return False
   o = b['obj']
   return o.dtype == object and o.shape == (k,) and all(o[j] == 'o%d' % int(xi[j]) for j in range(k))
@@ -139,7 +163,7 @@ def _view(case, info=None):
   import fedjax
   from fedjax.core import client_datasets as cd
   n = case['pslice'][0] if case.get('pslice') else case['n']
-  ex = _columns(n)
+  ex = _columns(n, _lay(case))
   ds = fedjax.ClientDataset(ex, fedjax.BatchPreprocessor([lambda e: {**e, 'y': e['x'] + 1}]))
   if case.get('pslice'):
     _, a, b, c = case['pslice']
@@ -255,7 +279,7 @@ def _take(view, case):
   pos = {rid: k for k, rid in enumerate(_ids(case))}
   for b in it:
     x = np.asarray(b['x'])
-    ok &= _feat_ok(b)
+    ok &= _feat_ok(b, case)
     ok &= all(int(v) in pos for v in x.tolist())
     out.append([pos.get(int(v), 10 ** 6) for v in x.tolist()])    # positions; 10^6 = not a row of this dataset
   return out, ok
@@ -296,6 +320,58 @@ def _other_case(case):
   """Another client / other hyper-parameters: one more row, another batch size and seed."""
   return {**case, 'n': case['n'] + 1, 'bs': case['bs'] + 1, 'seed': (case['seed'] + 7) % (1 << 32), 'skip': False,
           'epochs': None, 'steps': None, 'pslice': None}
+
+
+XPROC_CONFIGS = [[5, 2, 3, 0], [5, 7, 3, 0], [7, 3, 2, 12345], [12, 25, None, (1 << 32) - 1], [3, 1, 4, 7], [9, 4, 2, 2 ** 20]]
+_XPROC_SCRIPT = r'''
+import json, sys
+import numpy as np
+import fedjax
+out = []
+for n, bs, e, seed in json.loads(sys.argv[1]):
+  ds = fedjax.ClientDataset({'x': np.arange(n, dtype=np.int32)})
+  v = ds.shuffle_repeat_batch(batch_size=bs, num_epochs=e, num_steps=None if e is not None else 4, seed=seed)
+  out.append([[int(i) for i in b['x'].tolist()] for b in v])
+print('XPROC' + json.dumps(out))
+'''
+_xproc = []
+
+
+def warmup():
+  """Starts two fresh interpreter processes with different PYTHONHASHSEED early; their seeded streams are
+  collected by the `xproc` case at the end of the run."""
+  import json
+  import os
+  import subprocess
+  import sys
+  del _xproc[:]
+  for hs in ('1', '4242'):
+    env = dict(os.environ, PYTHONHASHSEED=hs)
+    _xproc.append(subprocess.Popen([sys.executable, '-c', _XPROC_SCRIPT, json.dumps(XPROC_CONFIGS)], env=env,
+                                   stdout=subprocess.PIPE, stderr=subprocess.DEVNULL, text=True))
+
+
+def _run_xproc(case):
+  import json
+  import fedjax
+  here = []
+  for n, bs, e, seed in XPROC_CONFIGS:
+    ds = fedjax.ClientDataset({'x': np.arange(n, dtype=np.int32)})
+    v = ds.shuffle_repeat_batch(batch_size=bs, num_epochs=e, num_steps=None if e is not None else 4, seed=seed)
+    here.append([[int(i) for i in b['x'].tolist()] for b in v])
+  if not _xproc:
+    warmup()
+  there = []
+  for p in _xproc:
+    try:
+      o, _ = p.communicate(timeout=300)
+      line = [l for l in o.split('\n') if l.startswith('XPROC')]
+      there.append(json.loads(line[0][5:]) if line else None)
+    except Exception:      # pylint: disable=broad-except
+      p.kill()
+      there.append(None)
+  del _xproc[:]
+  return {'same': [t == here for t in there], 'ran': [t is not None for t in there]}
 
 
 def _exact_count(n, bs, e, drop):
@@ -350,6 +426,8 @@ def _oracle_sweep(case, obs):
 def run(case):
   if 'sweep' in case:
     return _run_sweep(case)
+  if 'xproc' in case:
+    return _run_xproc(case)
   info = {}
   with _Recorder() as rec:
     view = _view(case, info)           # constructed and first iterated under the recorder
@@ -434,6 +512,13 @@ def _windows(case, obs):
 def oracle(case, obs):
   if 'sweep' in case:
     return _oracle_sweep(case, obs)
+  if 'xproc' in case:
+    out = []
+    if not all(obs['ran']):
+      out.append(('cross-process-run', 'a child interpreter did not produce its streams'))
+    elif not all(obs['same']):
+      out.append(('cross-process-determinism', 'the same seed gives different batches in another interpreter process (other PYTHONHASHSEED)'))
+    return out
   out = []
   n, bs = case['n'], case['bs']
   batches = obs['batches']
@@ -494,6 +579,9 @@ def oracle(case, obs):
     out.append(('mutated', 'iteration mutated the dataset arrays'))
   if not obs['features_ok']:
     out.append(('features', 'a batch column does not follow its row index / preprocessor not applied'))
+  if not case['skip'] and n >= 12 and any(a == b for a, b in zip(full, full[1:])):
+    out.append(('window-not-reshuffled', 'two consecutive complete windows of N draws are the same permutation: '
+                'successive windows are not re-shuffled'))
   if not case['skip'] and n >= 12:   # 1/12! < 3e-9 per case
     if full and full[0] == list(range(n)):
       out.append(('trivial-order', 'first window is the identity order'))
@@ -503,6 +591,8 @@ def oracle(case, obs):
 
 
 def encode(case, obs):
+  if 'xproc' in case:
+    return None
   if 'sweep' in case:
     n, bshi, ehi = case['sweep']
     return f'(CCount {n}%Z {bshi}%Z {ehi}%Z, OCount ({fw.zlist(obs["counts"])})%Z)'
@@ -519,18 +609,21 @@ def encode(case, obs):
 
 
 def nontrivial(case, obs):
-  if 'sweep' in case:
+  if 'sweep' in case or 'xproc' in case:
     return True
   return case['n'] >= 1 and len(obs['batches']) >= 1
 
 
 def describe(case, obs):
+  if 'xproc' in case:
+    return {'kind': 'cross-process'}
   if 'sweep' in case:
     return {'kind': 'count-sweep', 'sweep_combinations': len(obs['counts'])}
   n, bs = case['n'], case['bs']
   return {'N_vs_bs': 'empty' if n == 0 else 'lt' if n < bs else 'eq' if n == bs else 'multiple' if n % bs == 0 else 'gt',
           'epochs': case['epochs'], 'steps': case['steps'], 'skip': case['skip'], 'drop': case['drop'],
-          'call_form': ['hparams', 'kwargs', 'override', 'view-class'][_form(case)],
+          'call_form': ['hparams', 'kwargs', 'override', 'view-class'][_form(case)], 'layout': _lay(case),
+          'passes_per_batch': min(bs // max(n, 1), 5),
           'theorem_hypotheses': ('N = 0 (outside: judged by empty-dataset-batches)' if n == 0 else
                                  'oracle not a permutation' if any(sorted(w) != list(range(n)) for w in obs['shuffles']) else
                                  'hold (N >= 1, bs >= 1, every recorded shuffle a permutation)'),
@@ -541,6 +634,8 @@ def describe(case, obs):
 
 
 def shrink(case):
+  if 'xproc' in case:
+    return
   if 'sweep' in case:      # narrow the ranges, then hand over to an ordinary single case
     n, bshi, ehi = case['sweep']
     for cand in ([n, bshi // 2, ehi], [n, bshi, ehi // 2], [n, bshi - 1, ehi], [n, bshi, ehi - 1]):
